@@ -252,6 +252,62 @@ impl B {
         let r = self.g.lit(lit);
         E::Binary((l.sp().0, r.sp().1), Box::new(l), Box::new(r))
     }
+    /// `clk ' event`
+    fn event(&mut self) -> E {
+        let p = self.g.name("clk", CLK);
+        self.g.em.tok("'");
+        let ev = self.g.em.tok("event");
+        E::Attr((p.sp().0, ev), Box::new(p), 1, None)
+    }
+    /// `rising_edge ( clk )` / `falling_edge ( clk )`
+    fn edge(&mut self, n: &str, id: u32) -> E {
+        let f = self.g.name(n, id);
+        self.g.em.tok("(");
+        let a = self.g.read(CLK);
+        let b = self.g.em.tok(")");
+        E::Call((f.sp().0, b), Box::new(f), vec![a])
+    }
+    fn bin(l: E, r: E) -> E {
+        E::Binary((l.sp().0, r.sp().1), Box::new(l), Box::new(r))
+    }
+    /// `( <f> )`
+    fn paren(&mut self, f: &dyn Fn(&mut B) -> E) -> E {
+        let a = self.g.em.tok("(");
+        let e = f(self);
+        let b = self.g.em.tok(")");
+        E::Paren((a, b), Box::new(e))
+    }
+    /// `not <f>`
+    fn not(&mut self, f: &dyn Fn(&mut B) -> E) -> E {
+        let a = self.g.em.tok("not");
+        let e = f(self);
+        E::Unary((a, e.sp().1), Box::new(e))
+    }
+    /// clocked corpus case: list ( clk , b1 ), one if statement `if <cond> then ob0 <= b0 ; end if ;` or, with
+    /// `reset`, `if b1 = '1' then ob0 <= b2 ; elsif <cond> then ob0 <= b0 ; end if ;` — a wrongly combinational
+    /// classification reports b0 (and b2) missing and b1 superfluous
+    fn clocked_case(id: &str, reset: bool, cond: &dyn Fn(&mut B) -> E) -> Case {
+        let mut b = B::new();
+        let (kw, listed, names) = b.header(&["clk", "b1"]);
+        b.g.em.nl(4);
+        b.g.em.tok("if");
+        let mut bs = Vec::new();
+        if reset {
+            let c0 = b.cmp("b3", "'1'");
+            b.g.em.tok("then");
+            let s0 = b.assign("ob0", "b2");
+            bs.push((c0, vec![s0]));
+            b.g.em.nl(4);
+            b.g.em.tok("elsif");
+        }
+        let c = cond(&mut b);
+        b.g.em.tok("then");
+        let s = b.assign("ob0", "b0");
+        bs.push((c, vec![s]));
+        b.g.em.nl(4);
+        b.g.em.toks("end if ;");
+        b.finish(id, "Fk", kw, listed, names, vec![S::If(bs, Vec::new())])
+    }
     fn finish(mut self, id: &str, flags: &str, kw: Sp, listed: Vec<(u32, Sp)>, names: Vec<E>, body: Vec<S>) -> Case {
         self.g.em.nl(2);
         self.g.em.toks("end process ;");
@@ -393,6 +449,63 @@ fn corpus_cases() -> Vec<Case> {
         let c = E::Call((f.sp().0, e), Box::new(f), vec![a]);
         v.push(b.finish("corpus.heuristic", "FHc", kw, listed, names, vec![S::If(vec![(c, vec![s])], Vec::new())]));
     }
+    // clocked shapes: the edge test in every operand position `is_likely_clocked` descends into
+    v.push(B::clocked_case("corpus.K1", false, &|b| {
+        // clk = '1' and clk ' event
+        let l = b.cmp("clk", "'1'");
+        b.g.em.tok("and");
+        let r = b.event();
+        B::bin(l, r)
+    }));
+    v.push(B::clocked_case("corpus.K2", false, &|b| {
+        // b2 = '1' and rising_edge ( clk )
+        let l = b.cmp("b2", "'1'");
+        b.g.em.tok("and");
+        let r = b.edge("rising_edge", ID_RISING);
+        B::bin(l, r)
+    }));
+    v.push(B::clocked_case("corpus.K3", true, &|b| {
+        // elsif b2 = '1' and falling_edge ( clk )
+        let l = b.cmp("b2", "'1'");
+        b.g.em.tok("and");
+        let r = b.edge("falling_edge", ID_FALLING);
+        B::bin(l, r)
+    }));
+    v.push(B::clocked_case("corpus.K4", false, &|b| {
+        // ( b2 = '1' ) and ( clk ' event and clk = '0' )
+        let l = b.paren(&|b| b.cmp("b2", "'1'"));
+        b.g.em.tok("and");
+        let r = b.paren(&|b| {
+            let l = b.event();
+            b.g.em.tok("and");
+            let r = b.cmp("clk", "'0'");
+            B::bin(l, r)
+        });
+        B::bin(l, r)
+    }));
+    v.push(B::clocked_case("corpus.K5", false, &|b| {
+        // not ( not rising_edge ( clk ) )
+        b.not(&|b| b.paren(&|b| b.not(&|b| b.edge("rising_edge", ID_RISING))))
+    }));
+    v.push(B::clocked_case("corpus.K6", true, &|b| {
+        // elsif ( b2 = '1' ) and ( ( clk = '1' ) and ( not ( not clk ' event ) ) )
+        let l = b.paren(&|b| b.cmp("b2", "'1'"));
+        b.g.em.tok("and");
+        let r = b.paren(&|b| {
+            let l = b.paren(&|b| b.cmp("clk", "'1'"));
+            b.g.em.tok("and");
+            let r = b.paren(&|b| b.not(&|b| b.paren(&|b| b.not(&|b| b.event()))));
+            B::bin(l, r)
+        });
+        B::bin(l, r)
+    }));
+    v.push(B::clocked_case("corpus.K7", false, &|b| {
+        // rising_edge ( clk ) and b2 = '1'   (edge test on the left)
+        let l = b.edge("rising_edge", ID_RISING);
+        b.g.em.tok("and");
+        let r = b.cmp("b2", "'1'");
+        B::bin(l, r)
+    }));
     v
 }
 
